@@ -117,6 +117,10 @@ class NoncodingMain(Contract):
                           k.get('seq') is st.seq and k.get('_id') == 'ENST_T' and k.get('cds_start_nf') is True and k.get('has_known_orf') is False
                           and k.get('cleavage_params') is st.params and k.get('gene_id') is st.gene
                           and k.get('coordinate_feature_type') == 'transcript' and k.get('coordinate_feature_id') == 'ENST_T' and not a)
+                # nothing else is told to the graph: a novel-ORF transcript is searched to its very end (no mrna_end_nf truncation),
+                # which is what the ORF FASTA of the same command lists
+                I.e.prove('C08/main/graph-gets-no-further-options',
+                          set(k) == {'seq', '_id', 'cds_start_nf', 'has_known_orf', 'cleavage_params', 'gene_id', 'coordinate_feature_type', 'coordinate_feature_id'})
                 return SymObj('DGraph8')
             reg.ext_('svgraph.ThreeFrameTVG', tvg)
             reg.ctor_('ThreeFrameTVG', tvg)
@@ -260,4 +264,174 @@ class AltTranslationCollect(NoncodingMain):
     flavor = 'alt'
 
 
-NATIVE = []
+
+# ----------------------------------------------------------------------------
+# the biotype lists of callNovelORF / callVariant
+# ----------------------------------------------------------------------------
+CMN = 'moPepGen/cli/common.py'
+
+
+class _BiotypeList:
+    """a list filled with the right-stripped lines of one file"""
+    def __init__(self, owner, name):
+        self.owner, self.name, self.src, self.mixed = owner, name, None, False
+
+    def sym_method(self, I, name, a, k):
+        if name == 'append' and isinstance(a[0], SymObj) and a[0].cls == 'StrippedLine8':
+            src = a[0].fields['path']
+            if self.src is not None and self.src is not src:
+                self.mixed = True
+            self.src = src
+            self.owner._cur.appends.append((self.name, a[0]))
+            return None
+        raise Unsupported(f'{self.name}.{name}')
+
+    def sym_truth(self, I):
+        return self.owner._cur.nonempty(self.name)
+
+
+@register
+class LoadBiotypes(Contract):
+    """the inclusion list holds the lines of the inclusion file (empty without the option); the exclusion list holds the lines of the
+    exclusion file when one is given - also when that file is empty, which is how the packaged default list is switched off - and the
+    lines of the packaged default list only when no exclusion file is given"""
+    path, qualname, props = CMN, 'load_inclusion_exclusion_biotypes', ('C08',)
+    assumptions = ('assumed: iterating an open text file yields its lines; pkg_resources.resource_filename names the packaged default list',)
+
+    def setup(self, I):
+        e = I.e
+        st = types.SimpleNamespace(appends=[], opened=[])
+        st.has_inc = e.branch(e.bool('inclusion_given'), 'inclusion')
+        st.has_exc = e.branch(e.bool('exclusion_given'), 'exclusion')
+        st.inc_path, st.exc_path, st.default_path = SymObj('Path8', n='inclusion'), SymObj('Path8', n='exclusion'), SymObj('Path8', n='default')
+        st.nlines = {id(st.inc_path): e.int('n_lines_inclusion'), id(st.exc_path): e.int('n_lines_exclusion'), id(st.default_path): e.int('n_lines_default')}
+        for v in st.nlines.values():
+            e.assume(v >= 0)
+        st.nonempty_flags = {}
+        st.nonempty = lambda name: st.nonempty_flags.setdefault(name, e.bool(f'{name}_nonempty'))
+        st.args = [SymObj('Namespace', inclusion_biotypes=st.inc_path if st.has_inc else None, exclusion_biotypes=st.exc_path if st.has_exc else None)]
+        self._cur = st
+        return st
+
+    @property
+    def models(self):
+        c = self
+
+        def inst(reg):
+            zz = lambda i: i if is_z3(i) else z3.IntVal(i)
+
+            def open_(I, a, k):
+                st = c._cur
+                st.opened.append(a[0])
+                p = a[0]
+                n = st.nlines.get(id(p))
+                if n is None:
+                    raise Unsupported(f'open({p!r})')
+                v = FnView(n, lambda i: SymObj('Line8', path=p, i=zz(i)), tag='lines')
+                v.path = p
+                return v
+            reg.ext_('open', open_)
+            reg.method_('Line8', 'rstrip', lambda I, o, a, k: SymObj('StrippedLine8', path=o.fields['path'], i=o.fields['i']))
+            reg.ext_('pkg_resources.resource_filename', lambda I, a, k: c._cur.default_path)
+            reg.protocol_('StrippedLine8', '__bool__', lambda I, o: I.e.bool('line_not_blank'))
+        return (inst,)
+
+    def lists(self, env):
+        out = {}
+        for nm in ('inclusion_biotypes', 'exclusion_biotypes', 'biotypes'):
+            if env.has(nm):
+                out[nm] = env[nm]
+        return out
+
+    def havoc_for(self, nm):
+        def havoc(I, env, k):
+            # the list filled by this loop, from the file that is being iterated
+            if env.has(nm) and isinstance(env[nm], list) and not env[nm]:
+                g = _BiotypeList(self, nm)
+                g.src = getattr(env['handle'], 'path', None) if env.has('handle') else None
+                env[nm] = g
+        return havoc
+
+    def head(self, I, env, k):
+        self._cur.mark = len(self._cur.appends)
+
+    def step(self, I, env, k):
+        st = self._cur
+        new = st.appends[st.mark:]
+        line = env['line']
+        return [('every-line-of-the-file-goes-into-the-list-once', len(new) == 1 and (new[0][1] is line or (isinstance(line, SymObj) and z3.is_true(z3.simplify(new[0][1].fields['i'] == k)))))]
+
+    @property
+    def loops(self):
+        T = lambda I, env, k: []
+        spec = lambda nm: LoopSpec(inv=T, havoc=self.havoc_for(nm), on_head=self.head, step=self.step, target_after='unknown',
+                                   on_break=lambda I, env, k: [('every-line-is-read', False)])
+        return {0: spec('inclusion_biotypes'), 1: spec('exclusion_biotypes')}
+
+    def post_return(self, I, st, ret):
+        e = I.e
+        ok = isinstance(ret, tuple) and len(ret) == 2
+        e.prove('C08/biotypes/returns-the-two-lists', ok)
+        if not ok:
+            return
+        inc, exc = ret
+
+        def source(v):
+            if isinstance(v, _BiotypeList):
+                return None if v.mixed else v.src
+            return 'empty' if isinstance(v, list) and not v else 'other'
+        # a list that is still the empty Python list was never filled: either no file was opened for it or the file had no line
+        si, se = source(inc), source(exc)
+        e.prove('C08/biotypes/inclusion-list-from-the-inclusion-file-only', (si is st.inc_path or si == 'empty') if st.has_inc else si == 'empty')
+        e.prove('C08/biotypes/exclusion-list-from-the-given-file-else-from-the-packaged-default',
+                (se is st.exc_path or se == 'empty') if st.has_exc else (se is st.default_path or se == 'empty'))
+        want_open = ([st.inc_path] if st.has_inc else []) + [st.exc_path if st.has_exc else st.default_path]
+        e.prove('C08/biotypes/only-the-files-that-are-needed-are-opened', len(st.opened) == len(want_open) and all(a is b for a, b in zip(st.opened, want_open)))
+
+
+from pyvc.native import NativeCheck
+
+
+class NativeBiotypes(NativeCheck):
+    name = 'biotype_lists'
+    props = ('C08',)
+    functions = (f'{CMN}:load_inclusion_exclusion_biotypes',)
+    bounded_for = 'the two biotype lists through the real function and real files (the symbolic contract cannot follow a helper function added later)'
+    bound = 'inclusion file absent / empty / two lines x exclusion file absent / empty / two lines (9 cases)'
+    quick_budget_s = 20
+    thorough_budget_s = 20
+
+    def cases(self, rng, tier):
+        for inc in (None, [], ['lncRNA', 'miRNA']):
+            for exc in (None, [], ['snoRNA', 'TEC']):
+                yield dict(inclusion=inc, exclusion=exc)
+
+    def check(self, inp):
+        import argparse, tempfile, os, shutil
+        from moPepGen.cli import common
+        import pkg_resources
+        d = tempfile.mkdtemp(prefix='verif_c08_')
+        try:
+            paths = {}
+            for nm in ('inclusion', 'exclusion'):
+                if inp[nm] is not None:
+                    paths[nm] = os.path.join(d, nm + '.txt')
+                    with open(paths[nm], 'w') as fh:
+                        fh.write(''.join(x + '\n' for x in inp[nm]))
+            args = argparse.Namespace(inclusion_biotypes=paths.get('inclusion'), exclusion_biotypes=paths.get('exclusion'))
+            got_inc, got_exc = common.load_inclusion_exclusion_biotypes(args)
+            default = [l.rstrip() for l in open(pkg_resources.resource_filename('moPepGen', 'data/gencode_hs_exclusion_list.txt'))]
+            want_inc = inp['inclusion'] or []
+            want_exc = inp['exclusion'] if inp['exclusion'] is not None else default
+            if list(got_inc) != want_inc or list(got_exc) != want_exc:
+                return dict(call=f'load_inclusion_exclusion_biotypes({inp})', observed=dict(inclusion=list(got_inc)[:5], exclusion=list(got_exc)[:5]),
+                            expected=dict(inclusion=want_inc[:5], exclusion=want_exc[:5]), signature='biotype-list-differs-from-the-given-files')
+        finally:
+            shutil.rmtree(d, ignore_errors=True)
+        return None
+
+    def nontrivial(self, inp):
+        return str(inp)
+
+
+NATIVE = [NativeBiotypes()]
